@@ -75,6 +75,21 @@ Proof.
 Qed.
 Print Assumptions C04_emission_time_has_come.
 
+(* ... and along EVERY run: each partial released at a clock reading n at or after genesis is for a
+   round whose scheduled time is at or before n (the reading is carried by the emission itself). *)
+Theorem C04_run_emission_times_have_come :
+  forall (C : cfg) idx_of vpart recov vrec own_psig es s s' os,
+    run C idx_of vpart recov vrec own_psig s es = (s', os) ->
+    dom_p (c_period C) -> dom_g (c_genesis C) ->
+    forall r p sg n, In (OEmit r p sg n) (all_outs os) -> 1 <= r -> dom_t (c_genesis C) n ->
+      time_of_round time_buffer_bits (c_period C) (c_genesis C) r <= n.
+Proof.
+  intros C idx_of vpart recov vrec own_psig es s s' os Hrun Hp Hg r p sg n Hin Hr Ht.
+  apply C04_round_le_current_is_timely; try assumption. split; [exact Hr|].
+  exact (C04_emissions_never_early C idx_of vpart recov vrec own_psig es s s' os Hrun r p sg n Hin).
+Qed.
+Print Assumptions C04_run_emission_times_have_come.
+
 (* Before genesis nothing is signed because no tick reaches the handler: Model/Ticker.v
    (internal/chain/beacon/ticker.go).  A tick is stamped with a reading of the node's own clock
    and goes only to channels whose start time is not after the stamp; the handler registers its
